@@ -286,6 +286,21 @@ pub fn check_e1(ctx: &Ctx, prop: Prop, out: &mut Outcome, q: u32, t: u32) {
     finish(ctx, rule_for(prop), acc, found, out, "e1", &exec, &|c, f| minimize(c, f));
 }
 
+/// C03 under an inconsistent BuildHasher (reseeds itself every n calls): safe but
+/// contract-breaking user code; only memory safety is demanded (no model, no audit)
+pub fn check_e1_chaos(ctx: &Ctx, out: &mut Outcome, q: u32, t: u32) {
+    let mut profile = profile_for(Prop::C03, ctx.tier == Tier::Thorough);
+    profile.hashers = vec![HSpec::Chaos(1), HSpec::Chaos(2), HSpec::Chaos(5), HSpec::Chaos(13), HSpec::Fnv(1)];
+    profile.w_clone = 0;
+    profile.w_iter = 0;
+    profile.long_pct = 0;
+    let strat = move || case_strategy(&profile);
+    let exec = move |c: &Case| exec_case(c, Prop::C03);
+    journal_for(ctx, "e1");
+    let (acc, found) = run_engine(&strat, &exec, &|c: &Case| c.clone(), &ctx.id, ctx.seed, 0xc4a05, ctx.workers, ctx.cases(q, t), &ctx.known);
+    finish(ctx, "", acc, found, out, "e1", &exec, &|c, f| minimize(c, f));
+}
+
 pub fn exec_c13(t: &C13Case) -> CaseReport {
     match t.case.keys {
         KeyMode::Tracked => run_c13::<TKey>(t),
